@@ -91,7 +91,7 @@ type WOpts struct {
 }
 
 var WireFeatures = []string{"bind", "bind-value-impl", "value", "ivalue", "struct", "struct-fields", "struct-value-consumer", "fieldsof", "fieldsof-value", "fieldsof-ptr",
-	"sets", "nested-sets", "inline-sets", "inline-sets-deep", "struct-unexported-field", "ext-alias-suffix", "ext-name-differs-from-path", "ext-alias-equals-directory", "composite", "same-name-packages-across-files", "fieldsof-twice", "second-injector", "twin-types-in-same-named-packages", "value-ext-var", "build-in-panic", "bind-three-interfaces", "struct-unselected-field-of-other-package", "wire-nil-pointer-type-args", "bind-impl-through-alias", "composite-anon-struct", "wire-set-alias-var", "ivalue-concrete-also-provided", "pkg-level-name-equals-aliased-package", "struct-field-named-like-package", "struct-field-named-like-type", "bind-two-interfaces", "wire-paren", "struct-keyword-field", "struct-noinject-tag", "struct-no-fields", "named-alias", "wire-import-alias", "wire-legacy-build-tag", "wire-sets-in-var-block", "value-ext-nested-selector", "decoy-constructor-in-migrated-package", "struct-in-ext-package", "fieldsof-in-ext-package", "err", "args", "unused-arg", "multi-file", "ext", "bind-foreign-ctor", "bind-split-set", "multi-result"}
+	"sets", "nested-sets", "inline-sets", "inline-sets-deep", "struct-unexported-field", "ext-alias-suffix", "ext-name-differs-from-path", "ext-alias-equals-other-path-element", "ext-alias-equals-directory", "composite", "same-name-packages-across-files", "fieldsof-twice", "second-injector", "twin-types-in-same-named-packages", "value-ext-var", "build-in-panic", "composite-chan-of-recv-chan", "bind-three-interfaces", "struct-unselected-field-of-other-package", "wire-nil-pointer-type-args", "bind-impl-through-alias", "composite-anon-struct", "wire-set-alias-var", "ivalue-concrete-also-provided", "pkg-level-name-equals-aliased-package", "struct-field-named-like-package", "struct-field-named-like-type", "bind-two-interfaces", "wire-paren", "struct-keyword-field", "struct-noinject-tag", "struct-no-fields", "named-alias", "wire-import-alias", "wire-legacy-build-tag", "wire-sets-in-var-block", "value-ext-nested-selector", "decoy-constructor-in-migrated-package", "struct-in-ext-package", "fieldsof-in-ext-package", "err", "args", "unused-arg", "multi-file", "ext", "bind-foreign-ctor", "bind-split-set", "multi-result"}
 
 func WAllowAll(except ...string) map[string]bool {
 	m := map[string]bool{}
@@ -191,7 +191,12 @@ func (g *wgen) ptrTo(s TypeID) TypeID {
 func (g *wgen) extKey() string {
 	if len(g.c.Exts) == 0 {
 		if g.o.ExtNames {
-			switch rapid.IntRange(0, 3).Draw(g.rt, "extnames-kind") {
+			switch rapid.IntRange(0, 4).Draw(g.rt, "extnames-kind") {
+			case 4:
+				// an explicit alias v2 for one package and, in the same file, an unaliased import of
+				// another package whose path also ends in v2 but which declares another name
+				g.c.Exts = append(g.c.Exts, Ext{Key: "ext", Path: "api/v2", Name: "v2", Alias: "v2"}, Ext{Key: "ext2", Path: "lib/v2", Name: "handlers"})
+				g.w.AddFeature("ext-alias-equals-other-path-element")
 			case 3:
 				// the alias equals the last element of the import path, the package there has another name
 				g.c.Exts = append(g.c.Exts, Ext{Key: "ext", Path: "x/store", Name: "storage", Alias: "store"})
@@ -274,6 +279,11 @@ func (g *wgen) freshType(pkg string) TypeID {
 				ks := g.addType(Type{Kind: KBasic, Basic: "string"})
 				return g.addType(Type{Kind: KMap, Key: ks, HasKey: true, Elem: s})
 			default:
+				if rapid.Bool().Draw(g.rt, "chanchan") {
+					// chan (<-chan T): the parentheses matter
+					g.w.AddFeature("composite-chan-of-recv-chan")
+					return g.addType(Type{Kind: KChan, Elem: g.addType(Type{Kind: KChan, Elem: s, RecvOnly: true})})
+				}
 				return g.addType(Type{Kind: KChan, Elem: s})
 			}
 		}
@@ -364,9 +374,16 @@ func GenWire(rt *rapid.T, o WOpts) *WCase {
 	if o.ExtNames && o.Allow["ext"] && o.Allow["bind"] && rapid.IntRange(0, 99).Draw(rt, "twin-types") < 30 {
 		// two packages with the same NAME that declare a type with the same NAME: the provider of
 		// one is bound to an interface, the provider of the other is an ordinary provider
-		g.c.Exts = append(g.c.Exts, Ext{Key: "ext", Path: "a/util", Name: "util"}, Ext{Key: "ext2", Path: "b/util", Name: "util", Alias: "util2"})
+		if rapid.IntRange(0, 2).Draw(rt, "twin-kind") == 2 {
+			// explicit alias v2 for one package, unaliased import of another whose path also ends in
+			// v2 but which declares another name - both used side by side in one file
+			g.c.Exts = append(g.c.Exts, Ext{Key: "ext", Path: "api/v2", Name: "v2", Alias: "v2"}, Ext{Key: "ext2", Path: "lib/v2", Name: "handlers"})
+			g.w.AddFeature("ext-alias-equals-other-path-element")
+		} else {
+			g.c.Exts = append(g.c.Exts, Ext{Key: "ext", Path: "a/util", Name: "util"}, Ext{Key: "ext2", Path: "b/util", Name: "util", Alias: "util2"})
+			g.w.AddFeature("twin-types-in-same-named-packages")
+		}
 		g.w.AddFeature("ext")
-		g.w.AddFeature("twin-types-in-same-named-packages")
 		// the interface is bound on the plainly imported package or on the aliased one
 		bindKey := rapid.SampledFrom([]string{"ext", "ext2"}).Draw(rt, "twin-bind-on")
 		for _, key := range []string{"ext", "ext2"} {
@@ -994,7 +1011,7 @@ func (g *wgen) assemble() {
 	}
 	usesExt2 := func(u int) bool { return mentions(u, "ext2") }
 	usesExt1 := func(u int) bool { return mentions(u, "ext") }
-	if g.c.Ext("ext2") != nil && g.o.MaxFiles >= 2 && len(g.twinUnits) == 0 {
+	if g.c.Ext("ext2") != nil && g.c.Ext("ext2").Name == g.c.Ext("ext").Name && g.o.MaxFiles >= 2 && len(g.twinUnits) == 0 {
 		for u := range g.units {
 			if usesExt2(u) {
 				sameName = true
